@@ -28,7 +28,7 @@ def c11_plan(tier):
         }
     return rc, {
         "mc": G.consts(MaxVer=5, Features=feats | {"compact"}, Crashers={"a"}),
-        "mc2": G.consts(Node={"a", "b", "c"}, MaxVer=3, MaxSlots=2, Writers={"a"}, Crashers={"a"},
+        "mc2": G.consts(Node={"a", "b", "c"}, MaxVer=2, MaxSlots=1, Writers={"a"}, Crashers={"a"},
                         Features=feats, Budgets={99}),
         "covers": [G.consts(MaxVer=4, MaxSlots=1, Features=feats, Crashers={"a"})],
         "sim": (G.consts(Node={"a", "b", "c", "d"}, MaxVer=6, MaxSlots=4, Writers={"a", "c"}, Crashers={"c", "d"},
